@@ -32,10 +32,11 @@ def _setup_path():
 def _run_target(job):
     """verify one function (or lemma) and discharge its obligations; returns plain data"""
     _setup_path()
-    prop, kind, name, self_cls, timeout_ms, exclusions, tag = job
+    prop, kind, name, self_cls, timeout_ms, exclusions, tag, only_case = job
     t0 = time.time()
     out = {"target": name, "self_cls": self_cls, "kind": kind, "status": "ok", "reason": "", "obligations": [],
-           "trusted": [], "inlined": [], "hash": None, "lines": None, "dropped": [], "paths": 0, "tag": tag}
+           "trusted": [], "inlined": [], "hash": None, "lines": None, "dropped": [], "paths": 0, "tag": tag,
+           "case": only_case}
     try:
         import z3  # noqa
         from pyvc import verify, solve, replay
@@ -44,7 +45,7 @@ def _run_target(job):
         if kind == "lemma":
             rep = verify.verify_lemma(name, prop)
         else:
-            rep = verify.verify_function(name, prop, self_cls=self_cls, exclusions=exclusions, tag=tag)
+            rep = verify.verify_function(name, prop, self_cls=self_cls, exclusions=exclusions, tag=tag, only_case=only_case)
         out["status"] = rep.status
         out["reason"] = rep.reason
         out["hash"] = rep.hash
@@ -154,9 +155,14 @@ def main(argv=None):
     for t in getattr(spec, "TARGETS", []):
         if isinstance(t, str):
             t = {"qual": t}
-        jobs.append((prop, "function", t["qual"], t.get("self_cls"), timeout_ms, exclusions, t.get("tag")))
+        if t.get("split"):
+            from pyvc import verify as _v
+            for i in range(_v.count_cases(t["qual"], t.get("self_cls"))):
+                jobs.append((prop, "function", t["qual"], t.get("self_cls"), timeout_ms, exclusions, t.get("tag"), i))
+        else:
+            jobs.append((prop, "function", t["qual"], t.get("self_cls"), timeout_ms, exclusions, t.get("tag"), None))
     for l in getattr(spec, "LEMMAS", []):
-        jobs.append((prop, "lemma", l, None, timeout_ms, exclusions, None))
+        jobs.append((prop, "lemma", l, None, timeout_ms, exclusions, None, None))
 
     ded = []
     bq = None
@@ -204,6 +210,7 @@ def report(prop, spec, args, seed, ded, bres, findings, t0):
             ledger = json.load(f)
     expected = ledger.get(prop, {})
     seen_names = set()
+    ded = _merge_split(ded)
     for t in ded:
         if t["status"] == "error":
             errors.append("deductive engine crashed on %s: %s" % (t["target"], t["reason"]))
@@ -330,6 +337,53 @@ def report(prop, spec, args, seed, ded, bres, findings, t0):
                 print("   obligation/check: %s" % name)
         return 1
     return 0
+
+
+def _merge_split(ded):
+    """the per-case jobs of one split target become one record; an obligation is proved iff it is in every case"""
+    out = []
+    groups = {}
+    rank = {"proved": 0, "undecided": 1, "failed": 2}
+    for t in ded:
+        if t.get("case") is None:
+            out.append(t)
+            continue
+        key = (t["target"], t.get("self_cls"), t.get("tag"))
+        g = groups.get(key)
+        if g is None:
+            g = dict(t)
+            g["obligations"] = []
+            g["_by"] = {}
+            g["case"] = None
+            groups[key] = g
+            out.append(g)
+        else:
+            g["wall_s"] = round(g.get("wall_s", 0) + t.get("wall_s", 0), 3)
+            g["paths"] = (g.get("paths") or 0) + (t.get("paths") or 0)
+            g["trusted"] = sorted(set(g["trusted"]) | set(t["trusted"]))
+            g["inlined"] = sorted(set(g["inlined"]) | set(t["inlined"]))
+            if t["status"] != "ok" and g["status"] == "ok":
+                g["status"], g["reason"] = t["status"], t["reason"]
+        for o in t["obligations"]:
+            cur = g["_by"].get(o["name"])
+            if cur is None:
+                g["_by"][o["name"]] = o
+                g["obligations"].append(o)
+                continue
+            cur["ms"] = (cur.get("ms") or 0) + (o.get("ms") or 0)
+            cur["queries"] = (cur.get("queries") or 0) + (o.get("queries") or 0)
+            if o["expect"] == "sat":
+                # cover obligations: reachable in at least one case
+                if o["status"] == "proved":
+                    cur["status"] = "proved"
+                continue
+            if rank.get(o["status"], 1) > rank.get(cur["status"], 1):
+                keep_ms, keep_q = cur["ms"], cur["queries"]
+                cur.update(o)
+                cur["ms"], cur["queries"] = keep_ms, keep_q
+    for g in groups.values():
+        g.pop("_by", None)
+    return out
 
 
 def do_replay(prop, path):
